@@ -99,6 +99,42 @@ func c16Write(root string, idx int, dirSpellings []string, lastMissing bool, ven
 	if preexisting {
 		_ = cache.WriteSpec(validSpec(vendor, class, []string{"dev0"}, "previous"), name)
 	}
+	// neighbours of the file to be written, named after it: left-overs a writer could mistake for its own (a regular file, a
+	// link to a file outside the Spec directories, a dangling link or a directory called <file>.tmp; backups; an old
+	// temporary file).  Writing and removing must leave every one of them alone.
+	neighbours := []string{}
+	if last := realOf(len(dirs) - 1); idx%3 != 0 && name != "" && !strings.ContainsAny(name, "/\x00") && name != "." && name != ".." {
+		if _, err := os.Stat(last); err == nil {
+			tname := name
+			if e := filepath.Ext(name); e != ".json" && e != ".yaml" {
+				tname += ".yaml"
+			}
+			outside := filepath.Join(base, "outside")
+			_ = os.MkdirAll(outside, 0o755)
+			_ = os.WriteFile(filepath.Join(outside, "victim"), []byte("a file outside the Spec directories"), 0o644)
+			tmp := filepath.Join(last, tname+".tmp")
+			switch (idx / 3) % 4 {
+			case 0:
+				_ = os.WriteFile(tmp, []byte("left over"), 0o644)
+				neighbours = append(neighbours, tname+".tmp (regular file)")
+			case 1:
+				_ = os.Symlink(filepath.Join(outside, "victim"), tmp)
+				neighbours = append(neighbours, tname+".tmp (link to a file outside)")
+			case 2:
+				_ = os.Symlink(filepath.Join(outside, "nothing-here"), tmp)
+				neighbours = append(neighbours, tname+".tmp (dangling link)")
+			default:
+				_ = os.MkdirAll(filepath.Join(tmp, "sub"), 0o755)
+				neighbours = append(neighbours, tname+".tmp (directory)")
+			}
+			for _, n := range []string{tname + ".bak", tname + "~", "." + tname + ".swp", "spec.123.tmp", name + ".tmp"} {
+				if _, err := os.Lstat(filepath.Join(last, n)); err != nil {
+					_ = os.WriteFile(filepath.Join(last, n), []byte("neighbour "+n), 0o644)
+					neighbours = append(neighbours, n)
+				}
+			}
+		}
+	}
 	s0 := takeSnap(base)
 	var werr, rerr, r2err error
 	p, _ := hx.Guard(func() { werr = cache.WriteSpec(spec, name) })
@@ -158,7 +194,7 @@ func c16Write(root string, idx int, dirSpellings []string, lastMissing bool, ven
 	return hx.Case{
 		Term: hx.C("CWrite", hx.LS(dirs), hx.S(name), "2", obs),
 		Desc: map[string]interface{}{"op": "WriteSpec/Refresh/RemoveSpec", "dirs(relative to scenario root)": rel(dirs), "name": hx.JS(name), "kind": vendor + "/" + class,
-			"last_dir_missing": lastMissing, "previous_file": preexisting, "lower_priority_definition": lowerShadow,
+			"last_dir_missing": lastMissing, "neighbours_in_last_dir": neighbours, "previous_file": preexisting, "lower_priority_definition": lowerShadow,
 			"write_err": fmt.Sprint(werr), "files_changed": rel(d1.FilesChanged), "dirs_created": rel(d1.DirsCreated), "remove_deleted": rel(d2.FilesDeleted)},
 		Nontrivial: true,
 		Class:      "write-remove",
